@@ -733,6 +733,15 @@ fn setup_space_list_check(
     Ok((Definition::Drop, None, None, None))
 }
 
+// the pair operator (right to left) needs both its operands like every other binary operator,
+// the composition rules below are written for the left to right ones
+fn as_left_to_right(definition: SecondaryDefinition) -> SecondaryDefinition {
+    match definition {
+        SecondaryDefinition::BinaryRightToLeft => SecondaryDefinition::BinaryLeftToRight,
+        other => other,
+    }
+}
+
 // composition validation
 // value definitions must be preceded and succeded by non-value
 // binary ops must be preceded by a value or unary suffix and succeded by value or unary prefix
@@ -745,7 +754,7 @@ fn check_composition(
     token: &LexerToken,
 ) -> Result<(), CompilerError> {
     trace!("Composition check between previous {:?} and current {:?}", previous, current);
-    match (previous, current) {
+    match (as_left_to_right(previous), as_left_to_right(current)) {
         (SecondaryDefinition::Value, SecondaryDefinition::Value) if !check_for_list => composition_error(previous, current, &token),
         (SecondaryDefinition::None, SecondaryDefinition::EndGrouping)
         | (SecondaryDefinition::None, SecondaryDefinition::BinaryLeftToRight)
@@ -793,7 +802,7 @@ fn check_composition(
 // adjacency rules that hold even when whitespace or annotations separate the two tokens:
 // an operator still needs its operand
 fn check_operator_composition(previous: SecondaryDefinition, current: SecondaryDefinition, token: &LexerToken) -> Result<(), CompilerError> {
-    match (previous, current) {
+    match (as_left_to_right(previous), as_left_to_right(current)) {
         (SecondaryDefinition::None, SecondaryDefinition::BinaryLeftToRight)
         | (SecondaryDefinition::None, SecondaryDefinition::UnarySuffix)
         | (SecondaryDefinition::StartGrouping, SecondaryDefinition::BinaryLeftToRight)
@@ -1169,7 +1178,8 @@ pub fn parse(lex_tokens: &Vec<LexerToken>) -> Result<ParseResult, CompilerError>
                     Some(left) => match nodes.get_mut(left) {
                         None => implementation_error_with_token(format!("Index assigned to node has no value in node list. {:?}", left), token)?,
                         Some(left_node) => {
-                            if left_node.definition.is_optional() || left == ended_group {
+                            // an operator whose right operand is optional (`,` and infix application) did not get one
+                            if left_node.secondary_definition == SecondaryDefinition::OptionalBinaryLeftToRight || left == ended_group {
                                 left_node.right = None;
                             }
 
@@ -1247,7 +1257,7 @@ pub fn parse(lex_tokens: &Vec<LexerToken>) -> Result<ParseResult, CompilerError>
                             Some(left_node) => {
                                 // check last left for optional
                                 // unset its right if so
-                                if left_node.definition.is_optional() {
+                                if left_node.secondary_definition == SecondaryDefinition::OptionalBinaryLeftToRight {
                                     left_node.right = None;
                                 }
 
